@@ -9,6 +9,7 @@
        reply = what the real server answered (tls: the three records; ws: the 60-byte message), "-" if none
      -> <id> S=<server_process fp> F=<client_finish reply> RP=<model reply == reply> PL=<model client
         payload == fields of fp> PT=<pack> W=<wf_client_hello name fp>
+   <id> FP <tls|ws> <spv> <snow> <fp>   forged first packet -> <id> S=<server_process fp> (Gallina X25519)
    <id> D <plaintext> <snow>      -> <id> S=<unpack>
    <id> X <scalar> <u>            -> <id> <x25519 scalar u> (Gallina ladder) *)
 let z_of_hex s =
@@ -79,6 +80,12 @@ let () = iter_lines (fun line ->
     let w_str = if tr = "tls" then b01 (wf_client_hello name fp) else "na" in
     Printf.printf "%s S=%s F=%s RP=%s PL=%s PT=%s W=%s\n" id s_str f_str rp_str pl_str
       (hex_of_bytes (pack info ts)) w_str
+  | [id; "FP"; tr; spv; snow; fp] ->
+    (* a first packet no client code produced: server side of the model with the Gallina X25519 *)
+    let fp = bytes_of_hex fp and spv = bytes_of_hex spv and snow = z_of_hex snow in
+    let s = match (if tr = "tls" then x_server_process_tls dh_x25519 fp spv snow else x_server_process_ws dh_x25519 fp spv snow) with
+      | Accept (i, _, _) -> show_info i | Reject r -> "R:" ^ show_rej r | SPanic -> "P" in
+    Printf.printf "%s S=%s\n" id s
   | [id; "D"; pt; snow] ->
     let s = match unpack (bytes_of_hex pt) (z_of_hex snow) with
       | UOk i -> show_info i | UWindow _ -> "R:window" | UPanic -> "P" in
